@@ -127,7 +127,8 @@ def propose(rng, desc, counter):
         return 'iterable', lambda: Flow([{'p': 1, 'q': 'z'}, {'p': 2, 'q': None}], DF.update_resource(-1, name=fresh, path=fresh + '.csv'))
     if kind == 'row_fn' and 'grp' in names:
         def fn(row):
-            if 'grp' in row and row['grp'] is not None:
+            # a row function runs on every resource: it doubles text only (after a rename the name may hold another type)
+            if isinstance(row.get('grp'), str):
                 row['grp'] = row['grp'] * 2
         return 'row_fn', lambda: fn
     return None
